@@ -22,6 +22,7 @@ import (
 	"runtime/debug"
 	"sort"
 	"strings"
+	"sync"
 	"time"
 
 	webp "github.com/deepteams/webp"
@@ -44,7 +45,9 @@ type outcome struct {
 }
 
 // guarded runs f under recover and a wall-clock cap.
-func guarded(f func() (string, error)) outcome {
+func guarded(f func() (string, error)) outcome { return guardedFor(callTimeout, f) }
+
+func guardedFor(limit time.Duration, f func() (string, error)) outcome {
 	ch := make(chan outcome, 1)
 	go func() {
 		defer func() {
@@ -62,7 +65,7 @@ func guarded(f func() (string, error)) outcome {
 	select {
 	case o := <-ch:
 		return o
-	case <-time.After(callTimeout):
+	case <-time.After(limit):
 		return outcome{"timeout", ""}
 	}
 }
@@ -141,6 +144,30 @@ func declaredArea(b []byte) uint64 {
 	return mx
 }
 
+// observe5 counts things C05's text does not judge (set in main)
+var (
+	obsMu      sync.Mutex
+	obsPending []string
+)
+
+// observe5 may be called from the guarded goroutines; the main goroutine flushes the queue
+func observe5(k string) {
+	obsMu.Lock()
+	obsPending = append(obsPending, k)
+	obsMu.Unlock()
+}
+
+var hangConfirmed bool // a timeout was reproduced with a longer limit in this run
+
+func flushObservations(c *Ctx) {
+	obsMu.Lock()
+	for _, k := range obsPending {
+		c.Count(k)
+	}
+	obsPending = obsPending[:0]
+	obsMu.Unlock()
+}
+
 type entry struct {
 	name   string
 	pixels bool // allocates per declared pixel
@@ -154,7 +181,7 @@ var entries = []entry{
 			return "", err
 		}
 		if f.Width <= 0 || f.Height <= 0 || f.FrameCount < 0 {
-			panic(fmt.Sprintf("GetFeatures ok with %+v", *f))
+			observe5("observation: GetFeatures succeeds with a non-positive dimension or count")
 		}
 		return fmt.Sprintf("%dx%d", f.Width, f.Height), nil
 	}},
@@ -164,7 +191,7 @@ var entries = []entry{
 			return "", err
 		}
 		if c.Width <= 0 || c.Height <= 0 || c.ColorModel == nil {
-			panic(fmt.Sprintf("DecodeConfig ok with %dx%d", c.Width, c.Height))
+			observe5("observation: DecodeConfig succeeds with a non-positive dimension or nil colour model")
 		}
 		return fmt.Sprintf("%dx%d", c.Width, c.Height), nil
 	}},
@@ -174,7 +201,7 @@ var entries = []entry{
 			return "", err
 		}
 		if e := checkImage(im); e != nil {
-			panic("Decode: " + e.Error())
+			panic("ILL-FORMED (returned image: positive bounds, buffers large enough): Decode: " + e.Error())
 		}
 		return im.Bounds().String(), nil
 	}},
@@ -184,7 +211,7 @@ var entries = []entry{
 			return "", err
 		}
 		if e := checkImage(im); e != nil {
-			panic("image.Decode: " + e.Error())
+			panic("ILL-FORMED (returned image: positive bounds, buffers large enough): image.Decode: " + e.Error())
 		}
 		return im.Bounds().String(), nil
 	}},
@@ -194,18 +221,21 @@ var entries = []entry{
 			return "", err
 		}
 		n := d.NumFrames()
-		if n <= 0 || n > 10000 {
-			panic(fmt.Sprintf("demuxer ok with %d frames", n))
+		if n > 10000 {
+			panic(fmt.Sprintf("ILL-FORMED (documented cap MaxFrames): demuxer ok with %d frames", n))
+		}
+		if n <= 0 {
+			observe5("observation: demuxer succeeds with no frame")
 		}
 		for i := -1; i <= n; i++ {
 			fi, err := d.Frame(i)
 			if (err == nil) != (i >= 0 && i < n) {
-				panic("Frame index handling")
+				observe5("observation: Frame(i) succeeds outside / fails inside 0..NumFrames-1")
 			}
 			if err == nil && (fi.Width <= 0 || fi.Height <= 0 || fi.OffsetX < 0 || fi.OffsetY < 0) {
 				// widths of simple VP8 files may be 0 (header says so): reported via the model comparison, not here
 				if d.GetFeatures().Format == mux.FormatExtended {
-					panic(fmt.Sprintf("frame %d geometry %+v", i, *fi))
+					observe5("observation: extended-layout frame with non-positive size or negative offset")
 				}
 			}
 		}
@@ -215,7 +245,7 @@ var entries = []entry{
 		it := d.NewFrameIterator()
 		for it.HasNext() {
 			if _, err := it.Next(); err != nil {
-				panic("iterator")
+				observe5("observation: frame iterator fails before its end")
 			}
 		}
 		return fmt.Sprint(n), nil
@@ -238,7 +268,7 @@ var entries = []entry{
 		for i := range a.Frames {
 			if a.Frames[i].Image != nil {
 				if e := checkImage(a.Frames[i].Image); e != nil {
-					panic("DecodeFrames: " + e.Error())
+					panic("ILL-FORMED (returned image: positive bounds, buffers large enough): DecodeFrames: " + e.Error())
 				}
 			}
 		}
@@ -253,14 +283,14 @@ var entries = []entry{
 				return "", err
 			}
 			if e := checkImage(im); e != nil {
-				panic("NextFrame: " + e.Error())
+				panic("ILL-FORMED (returned image: positive bounds, buffers large enough): NextFrame: " + e.Error())
 			}
 			if im.Bounds().Dx() != a.CanvasWidth || im.Bounds().Dy() != a.CanvasHeight {
-				panic("NextFrame: snapshot is not the canvas size")
+				observe5("observation: NextFrame snapshot is not the canvas size")
 			}
 			k++
 			if k > 10001 {
-				panic("NextFrame does not terminate")
+				panic("LOOPING: NextFrame yields more frames than MaxFrames")
 			}
 		}
 		return fmt.Sprint(k), nil
@@ -795,16 +825,37 @@ func evalInput(c *Ctx, kind string, b []byte) {
 			continue
 		}
 		o := guarded(func() (string, error) { return e.run(b) })
+		flushObservations(c)
 		vec += o.class[:1]
 		c.Count(e.name + "-" + o.class)
 		if o.class == "timeout" {
-			hung[e.name]++
+			// a loaded machine can exceed the cap: the first timeout of a run is confirmed with a three
+			// times longer limit before it is called a hang ("in time ... proportional to the input
+			// length plus the declared size"); once one hang is confirmed, later timeouts are taken as is
+			if !hangConfirmed {
+				if o2 := guardedFor(3*callTimeout, func() (string, error) { return e.run(b) }); o2.class != "timeout" {
+					c.Count("observation: slow call (over the cap once, finished on the retry): " + e.name)
+					o = o2
+					vec = vec[:len(vec)-1] + o.class[:1]
+				} else {
+					hangConfirmed = true
+				}
+				flushObservations(c)
+			}
+			if o.class == "timeout" {
+				hung[e.name]++
+			}
 		}
 		if (o.class == "panic" || o.class == "timeout") && e.name == "animation.DecodeFrames+AnimDecoder" {
 			seqFailed = true
 		}
 		if o.class == "panic" || o.class == "timeout" {
 			key := o.class + "-" + e.name
+			if o.class == "panic" && strings.HasPrefix(o.info, "ILL-FORMED") {
+				key = "ill-formed-result-" + e.name
+			} else if o.class == "panic" && strings.HasPrefix(o.info, "LOOPING") {
+				key = "looping-" + e.name
+			}
 			if o.class == "panic" && isRiffSizeClass(b) && (e.name == "Demuxer" || e.name[:9] == "animation") {
 				key = "demux-riff-size-panic"
 			}
